@@ -280,7 +280,7 @@ func init() {
 		if containsArray(el) {
 			return st, Term{}, false
 		}
-		ex.modelUsed("slices.SortFunc: every element afterwards is an element of the slice before (new[j] = old[perm(j)], 0 <= perm(j) < len); nothing outside the slice changes except what the comparison function writes")
+		ex.modelUsed("slices.SortFunc: the slice afterwards is a rearrangement of the slice before (new[j] = old[perm(j)], perm injective into [0, len)); nothing outside the slice changes except what the comparison function writes")
 		s := args[0]
 		leaves := ex.leaves(el)
 		own := map[string]bool{}
@@ -304,6 +304,8 @@ func init() {
 		ex.vc.decls = append(ex.vc.decls, fmt.Sprintf("(declare-fun %s (Int) Int)", perm))
 		n := sLen(s)
 		ex.vc.assume(pc, T(fmt.Sprintf("(forall ((j Int)) (! (=> (and (<= 0 j) (< j %s)) (and (<= 0 (%s j)) (< (%s j) %s))) :pattern ((%s j))))", n.S, perm, perm, n.S, perm), SBool), "sort: rearrangement indices in range")
+		// a rearrangement: two places never receive the same old element
+		ex.vc.assume(pc, T(fmt.Sprintf("(forall ((j Int) (k Int)) (! (=> (and (<= 0 j) (< j %s) (<= 0 k) (< k %s) (= (%s j) (%s k))) (= j k)) :pattern ((%s j) (%s k))))", n.S, n.S, perm, perm, perm, perm), SBool), "sort: rearrangement is injective")
 		for _, lf := range leaves {
 			so := arraySort(SRef, lf.so)
 			h := ex.get(st, lf.key, so)
